@@ -69,20 +69,22 @@ def scalars(A, B):
         return np.sum(A * np.conj(B), axis=-1) / np.sum(np.abs(B) ** 2, axis=-1)
 
 
-def tangent_dev(TA, TB):
-    """arrays (..., 2, d): row 0 a point, row 1 a vector tangent at it.
-    Deviation of the two as tangent vectors: rows projectively equal and the
-    two scalars of equal sign (s t > 0).  The vectors are first projected to
-    the tangent space at the point (reference formula), so that (p, v) and
-    (p, v + c p) compare equal."""
+def tangent_dev(TA, TB, project=(True, True)):
+    """arrays (..., 2, d): row 0 a point, row 1 a vector at it.  Deviation of
+    the two as tangent vectors: rows projectively equal and the two scalars of
+    equal sign (s t > 0).  project[k] says whether side k's vector is first
+    projected to the tangent space at its point by the reference formula (so
+    that (p, v) and (p, v + c p) compare equal): True for primary data, whose
+    vector is only given modulo the point; False for *derived* data, which must
+    already be the projected vector."""
     TA = np.asarray(TA, dtype=float)
     TB = np.asarray(TB, dtype=float)
     if TA.shape != TB.shape or TA.ndim < 2 or TA.shape[-2] != 2:
         return np.inf
     pa, pb = TA[..., 0, :], TB[..., 0, :]
     with np.errstate(all="ignore"):
-        va = rh.tangent_project(pa, TA[..., 1, :])
-        vb = rh.tangent_project(pb, TB[..., 1, :])
+        va = rh.tangent_project(pa, TA[..., 1, :]) if project[0] else TA[..., 1, :]
+        vb = rh.tangent_project(pb, TB[..., 1, :]) if project[1] else TB[..., 1, :]
     dp = row_dev(pa, pb)
     dv = row_dev(va, vb)
     s = np.real(scalars(pa, pb))
